@@ -61,6 +61,8 @@ pub(crate) struct BufferedSyscommand
     command: SystemCommand,
     setup: SystemCommandSetup,
     cleanup: SystemCommandCleanup,
+    #[cfg(feature = "verif")]
+    verif_id: u64,
 }
 
 //-------------------------------------------------------------------------------------------------------------------
@@ -78,6 +80,29 @@ pub(crate) fn syscommand_runner(
 )
 {
     let idx = **world.resource::<SyscommandCounter>();
+    #[cfg(feature = "verif")]
+    let (verif_id, verif_replay) = {
+        let raw = crate::verif::current_delivery();
+        let replay = raw & (1u64 << 63) != 0;
+        let id = raw & !(1u64 << 63);
+        crate::verif::emit(crate::verif::VerifEvent::Enter{ id, sys: *command, replay, depth: idx });
+        (id, replay)
+    };
+    #[cfg(feature = "verif")]
+    let _ = verif_replay;
+    #[cfg(feature = "verif")]
+    struct VerifExit(u64, Entity);
+    #[cfg(feature = "verif")]
+    impl Drop for VerifExit
+    {
+        fn drop(&mut self)
+        {
+            if std::thread::panicking() { return; }
+            crate::verif::emit(crate::verif::VerifEvent::Exit{ id: self.0, sys: self.1 });
+        }
+    }
+    #[cfg(feature = "verif")]
+    let _verif_exit = VerifExit(verif_id, *command);
 
     // cleanup
     garbage_collect_entities(world);
@@ -88,6 +113,10 @@ pub(crate) fn syscommand_runner(
     let Ok(mut entity_mut) = world.get_entity_mut(*command)
     else
     {
+        #[cfg(feature = "verif")]
+        crate::verif::emit(crate::verif::VerifEvent::Abort{
+            id: verif_id, sys: *command, reason: crate::verif::VerifAbortReason::EntityGone
+        });
         cleanup_on_abort(world, setup, cleanup);
         return
     };
@@ -95,6 +124,10 @@ pub(crate) fn syscommand_runner(
     else
     {
         tracing::error!(?command, "system command component is missing on extract");
+        #[cfg(feature = "verif")]
+        crate::verif::emit(crate::verif::VerifEvent::Abort{
+            id: verif_id, sys: *command, reason: crate::verif::VerifAbortReason::StorageGone
+        });
         cleanup_on_abort(world, setup, cleanup);
         return
     };
@@ -104,11 +137,21 @@ pub(crate) fn syscommand_runner(
         // Cache the callback unless at the bottom of the pile.
         if idx == 0 {
             tracing::warn!(?command, "system command missing");
+            #[cfg(feature = "verif")]
+            crate::verif::emit(crate::verif::VerifEvent::Abort{
+                id: verif_id, sys: *command, reason: crate::verif::VerifAbortReason::RootBusy
+            });
             cleanup_on_abort(world, setup, cleanup);
         } else {
             tracing::debug!(?command, "deferring suspected recursive system command");
+            #[cfg(feature = "verif")]
+            crate::verif::emit(crate::verif::VerifEvent::Postpone{ id: verif_id, sys: *command });
             world.resource_mut::<CobwebCommandQueue<BufferedSyscommand>>().push(
-                BufferedSyscommand{ command, setup, cleanup }
+                BufferedSyscommand{
+                    command, setup, cleanup,
+                    #[cfg(feature = "verif")]
+                    verif_id,
+                }
             );
         }
 
@@ -117,8 +160,14 @@ pub(crate) fn syscommand_runner(
 
     // run the system command
     **world.resource_mut::<SyscommandCounter>() += 1;
+    #[cfg(feature = "verif")]
+    crate::verif::emit(crate::verif::VerifEvent::Start{ id: verif_id, sys: *command });
     setup.run(world);
     callback.run(world, cleanup);
+    #[cfg(feature = "verif")]
+    crate::verif::emit(crate::verif::VerifEvent::Finish{
+        id: verif_id, sys: *command, reinserted: world.get_entity(*command).is_ok()
+    });
 
     // cleanup
     // - We do this before reinserting the callback in case the callback garbage collected itself.
@@ -163,6 +212,8 @@ pub(crate) fn syscommand_runner(
                 if buffered.command == command
                 {
                     tracing::debug!(?command, "running reordered recursive system command");
+                    #[cfg(feature = "verif")]
+                    crate::verif::set_current_delivery(buffered.verif_id | (1u64 << 63));
                     syscommand_runner(world, buffered.command, buffered.setup, buffered.cleanup);
                     return false;
                 }
@@ -177,6 +228,8 @@ pub(crate) fn syscommand_runner(
     {
         while let Some(to_discard) = world.resource_mut::<CobwebCommandQueue<BufferedSyscommand>>().pop_front() {
             tracing::warn!(?to_discard.command, "failed to run missing system command");
+            #[cfg(feature = "verif")]
+            crate::verif::emit(crate::verif::VerifEvent::Discard{ id: to_discard.verif_id, sys: *to_discard.command });
             cleanup_on_abort(world, to_discard.setup, to_discard.cleanup);
         }
 
